@@ -655,6 +655,7 @@ type c12nJob struct {
 	stream, filter, pre string
 	atoms, texts        []string
 	caseLine, implLine  string
+	suffix              string // text after the filter (sort by / limit none; stream n4, c12w9.go): rows selected do not depend on it
 }
 
 var c12nNames = []string{"A", "B", "C"}
@@ -731,11 +732,13 @@ func c12nGenerate(o *opts, r *rng, stats map[string]int) []*c12nJob {
 		}
 		add("n3", e, lay, texts)
 	}
+	// n4: the entity's own id among the atoms, at every leaf position of every skeleton (c12w9.go)
+	jobs = append(jobs, c12w9IdJobs(o, r, stats)...)
 	return jobs
 }
 
 func (j *c12nJob) query() string {
-	return c12Render(j.filter, j.atoms, func(i int) string { return j.texts[i] })
+	return c12Render(j.filter, j.atoms, func(i int) string { return j.texts[i] }) + j.suffix
 }
 
 func c12nFromLine(f []string) *c12nJob {
@@ -745,6 +748,10 @@ func c12nFromLine(f []string) *c12nJob {
 	j := &c12nJob{store: f[2], stream: f[1], filter: string(unhx(f[4])), pre: f[5], atoms: strings.Split(f[6], ",")}
 	for _, h := range strings.Split(f[7], ",") {
 		j.texts = append(j.texts, string(unhx(h)))
+	}
+	// what follows the filter in the recorded query (sort by / limit none of stream n4)
+	if q, bare := string(unhx(f[3])), j.query(); len(q) > len(bare) && strings.HasPrefix(q, bare) {
+		j.suffix = q[len(bare):]
 	}
 	return j
 }
@@ -790,7 +797,8 @@ func c12nRun(o *opts, jobs []*c12nJob, stats map[string]int) error {
 		q := j.query()
 		j.caseLine = fmt.Sprintf("N %s things %s %s %s %s %s %s", j.stream, hxs(q), hxs(j.filter), j.pre,
 			strings.Join(j.atoms, ","), strings.Join(htexts, ","), strings.Join(bits, ","))
-		j.implLine = fmt.Sprintf("N %s %s", db.rowBits(q), strings.Join(hexIds, ","))
+		// third field: the rows the store's filtered id cursor (Store.IterateIds over the typed predicate) yields (c12w9.go)
+		j.implLine = fmt.Sprintf("N %s %s %s", db.rowBits(q), strings.Join(hexIds, ","), c12w9IterBits(db, q))
 	}
 	stats["n_atoms"] = len(atomBits)
 	stats["n_distinct_atom_valuations"] = len(distinct)
